@@ -227,7 +227,7 @@ theorem nm_lt_W (h : GoodCal g cal) : calNM cal < W := by have := h.small; omega
 
 theorem ht2mjd_idx (cal : List Nat) (d : Ymd) (i : Nat)
     (hi : ((d.y : Int) - 1) * 12 + ((d.m : Int) - 1) - calSM cal = (i : Int)) (hW : i < W)
-    (hn : i < calNM cal) : ht2mjd cal d = (calMT cal i + u32 ((d.d : Int) - 1)) % W := by
+    (hn : i + 1 < calNM cal) : ht2mjd cal d = (calMT cal i + u32 ((d.d : Int) - 1)) % W := by
   unfold ht2mjd
   simp only [hi, u32_natCast i hW]
   rw [if_neg (by omega)]
@@ -300,10 +300,11 @@ theorem succ_htDate (h : GoodCal g cal) (j n : Nat) (h1 : 1 ≤ n) (h2 : n < cal
       rw [hmm] at hm
       apply Ymd.eq_mk <;> first | rfl | (simp only [htDate, en]; omega)
 
-/-- month index (`(y-1)*12 + (m-1) - SM`) outside `[0, nm)`: `ht2mjd` answers 0 -/
+/-- month index (`(y-1)*12 + (m-1) - SM`) outside `[0, nm-1)` (the last transition only closes the last month, it
+is no month itself): `ht2mjd` answers 0 -/
 theorem ht2mjd_outside (h : GoodCal g cal) (d : Ymd) (hy : d.y ≤ 4095) (hm : d.m ≤ 15)
     (ho : ((d.y : Int) - 1) * 12 + ((d.m : Int) - 1) - calSM cal < 0 ∨
-          (calNM cal : Int) ≤ ((d.y : Int) - 1) * 12 + ((d.m : Int) - 1) - calSM cal) :
+          (calNM cal : Int) - 1 ≤ ((d.y : Int) - 1) * 12 + ((d.m : Int) - 1) - calSM cal) :
     ht2mjd cal d = 0 := by
   have hs := h.small
   simp only [ht2mjd]
@@ -344,7 +345,22 @@ theorem scaleNdim_tab (s : Nat) (hs : s = 9 ∨ s = 10) (y m : Nat) :
   rcases hs with h | h <;> subst h <;> simp [scaleNdim]
 
 theorem scaleWday_tab (s : Nat) (hs : s = 9 ∨ s = 10) (y m d : Nat) :
-    scaleWday s y m d = wdayOfMjd (ht2mjd (tableOf s) ⟨y, m, d⟩) := by
+    scaleWday s y m d =
+      if ht2mjd (tableOf s) ⟨y, m, d⟩ = 0 then 0 else wdayOfMjd (ht2mjd (tableOf s) ⟨y, m, d⟩) := by
   rcases hs with h | h <;> subst h <;> simp [scaleWday]
+
+/-- a date the table has got: the weekday of its day number -/
+theorem scaleWday_tab_pos (s : Nat) (hs : s = 9 ∨ s = 10) (y m d : Nat) (h : ht2mjd (tableOf s) ⟨y, m, d⟩ ≠ 0) :
+    scaleWday s y m d = wdayOfMjd (ht2mjd (tableOf s) ⟨y, m, d⟩) := by
+  rw [scaleWday_tab s hs, if_neg h]
+
+/-- a date the table has not got: no weekday (`MIR`) -/
+theorem scaleWday_tab_zero (s : Nat) (hs : s = 9 ∨ s = 10) (y m d : Nat) (h : ht2mjd (tableOf s) ⟨y, m, d⟩ = 0) :
+    scaleWday s y m d = 0 := by
+  rw [scaleWday_tab s hs, if_pos h]
+
+theorem toMjd_tab (s : Nat) (hs : s = 9 ∨ s = 10) (h : Ymd) :
+    toMjd s h = if ht2mjd (tableOf s) h = 0 then none else some (ht2mjd (tableOf s) h) := by
+  rcases hs with e | e <;> subst e <;> simp [toMjd]
 
 end Echse.Scale
